@@ -277,6 +277,62 @@ def body(ctx):
                 ctx.violation('C15.PeerGetsAll', dict(kind='schedule+short-writes', mode=mode, frame_clause=v, schedule=res[i][1]['schedule'][:200]))
             else:
                 ctx.count(traces=1, evaluations=1)
+    # 2e. a task is cancelled in the middle of a message (short writes, a second task queued on the transport lock): the cancelled message is
+    #     broken by the cancellation itself, but nothing of it is written any more once its sender is gone - whatever is written afterwards
+    #     is the other task's own message, in one piece
+    import asyncio
+    ncm = 0
+    for k in range(1, 40 if ctx.quick else 200):
+        dev = simdev.SimDevice(seed=k)
+        dev.shell_scripts[b'shell:' + b'a' * 60] = [b'A']
+        dev.shell_scripts[b'shell:b'] = [b'B']
+        sess = env.Session('async', dev, wcap=lambda n: min(n, 7))
+        sess.core.yield_io = True
+        sess.call('connect')
+        d = sess.device
+        d._local_id_lock, d._io_manager._transport_lock, d._io_manager._store_lock = asyncio.Lock(), asyncio.Lock(), asyncio.Lock()
+        log, state = [], dict(cancelled_at=None)
+        orig = sess.transport.bulk_write
+
+        async def logged(data, tmo, orig=orig, log=log):
+            log.append((asyncio.current_task().get_name(), len(data)))
+            return await orig(data, tmo)
+        sess.transport.bulk_write = logged
+
+        async def main(d=d, sess=sess, log=log, state=state, k=k):
+            ta = asyncio.ensure_future(d.shell('a' * 60, decode=False, read_timeout_s=1.0))
+            ta.set_name('A')
+            tb = asyncio.ensure_future(d.shell('b', decode=False, read_timeout_s=1.0))
+            tb.set_name('B')
+            n_ = 0
+            while not ta.done():
+                await asyncio.sleep(0)
+                if sess.core.hbuf and log and log[-1][0] != 'B':
+                    n_ += 1
+                    if n_ >= k:
+                        state['cancelled_at'] = len(log)
+                        ta.cancel()
+                        break
+            for t_ in (ta, tb):
+                try:
+                    await t_
+                except BaseException:  # noqa
+                    pass
+            for _ in range(50):
+                await asyncio.sleep(0)          # whatever was left running in the background gets its turns
+        sess.rebind_clock()
+        sess.loop.run_until_complete(main())
+        sess.close_loop()
+        if state['cancelled_at'] is None:
+            break
+        ncm += 1
+        ctx.count(evaluations=1)
+        late = [w for w in log[state['cancelled_at']:] if w[0] != 'B']
+        if late:
+            ctx.violation('C15.Contiguous', dict(kind='a task cancelled in the middle of a message', cancelled_after_writes=state['cancelled_at'],
+                                                 writes_after_the_cancellation_by_others_than_the_second_task=late[:5], writes=log[:state['cancelled_at'] + 12]))
+            break
+    ctx.extra['cancellations_in_mid_message'] = ncm
     # 3. loopback
     lb = []
     for mode in ('sync', 'async'):
